@@ -25,11 +25,11 @@ func init() {
 				Flavours: []string{"plain", "race", "cover"},
 				Blocks:   32,
 				Procs:    16,
-				Rule: "case = (beta < 1000, insertion pattern, history). Patterns: ascending, descending, outward and inward zig-zag, insert-next-to-last-key (bisection), bit-reversal, random; long monotone runs at loose balance factors (beta 900..999) sized 30% beyond the point where a never-rebalanced chain would cross the bound (up to 30000 keys); histories continue on Clones of the tree; each followed or interleaved with removals (random, half drain, drain to empty, then regrow) and Clear. " +
+				Rule: "case = (beta < 1000, insertion pattern, history). Patterns: ascending, descending, outward and inward zig-zag, insert-next-to-last-key (bisection), bit-reversal, random; long monotone runs at loose balance factors (beta 900..999) sized 30% beyond the point where a never-rebalanced chain would cross the bound (up to 30000 keys); histories continue on Clones of the tree; each followed or interleaved with removals (random, half drain, drain to empty, then regrow) and Clear; deep-remnant histories: a tree of 200..2047 keys pruned to one deep subtree plus the spine of ancestors holding it in place (deepest-first, random or ascending removals; beta 0 in half of them), then every remaining key touched again by Add and Replace calls that find it present, with fresh insertions next to it. " +
 					"After EVERY operation: depth of the deepest node (full traversal through Root/Left/Right for trees <= 300 keys; for larger trees the depth of the key just inserted, via Cursor(k)+Up, plus a full traversal every 64 steps and at the end) against the real-valued bound with P tracked by the monitor; comparator calls made by Get for present and absent keys against floor(bound)+1. " +
 					"Bulk New with n distinct (and duplicated) keys: height == floor(log2 n) for every beta including 1000. beta: quick {0,1,2,50,100,250,300,500,700,750,900,999} + a rotating extra; thorough sweeps all 0..999. " +
 					"distinct = hash(beta, pattern, ops); non-trivial = at some step the deepest key was within one level of log_b(P) (depth >= bound-2; on the unchanged tree the code keeps depth <= log_b(P), one level inside the stated bound)",
-				Required:     []string{"near_limit_steps", "histories_inserting_through_replace", "long_monotone_runs", "clones", "clone_worker_rounds", "steps", "get_comparison_checks", "new_height_checks", "after_remove_checks", "regrow_after_empty"},
+				Required:     []string{"near_limit_steps", "histories_inserting_through_replace", "long_monotone_runs", "clones", "clone_worker_rounds", "steps", "get_comparison_checks", "new_height_checks", "after_remove_checks", "regrow_after_empty", "deep_remnant_histories", "touches_of_present_keys"},
 				Assumptions:  []string{"depth is read through stree.Cursor (Root/Left/Right/Up), which C03 checks separately", "the bound is evaluated in float64 with an epsilon of 1e-9 in the code's favour"},
 				CoverPkgs:    []string{"github.com/creachadair/mds/stree"},
 				CoverAnchors: []string{"stree/stree.go:limitFunc", "stree/stree.go:toFraction", "stree/stree.go:insert", "stree/stree.go:Add", "stree/stree.go:Replace", "stree/stree.go:Remove", "stree/stree.go:incSize", "stree/node.go:rewrite", "stree/node.go:vineToTree", "stree/node.go:treeToVine", "stree/node.go:rotateLeft", "stree/node.go:extract", "stree/stree.go:New"},
@@ -363,6 +363,11 @@ func runC02(c *fw.Ctx) {
 		ok, pv, stack := fw.Try(func() {
 			if long {
 				c02monotoneLong(h)
+			} else if i%6 == 2 {
+				if i%12 == 2 {
+					h.beta, beta = 0, 0 // no delete-side rebuild at all
+				}
+				c02remnant(h)
 			} else {
 				c02history(h, i)
 			}
@@ -560,5 +565,116 @@ func c02history(h *c02hist, caseIdx int) {
 	}
 	if !h.failed && h.t.Len() > 0 {
 		h.checkDepth(h.fullDepth(), "final full traversal")
+	}
+}
+
+// c02remnant: a hostile shape for the depth bound. A large tree is pruned down
+// to one deep subtree plus the spine of ancestors that holds it in place (all
+// other keys removed, deepest first, in random order, or in ascending order),
+// so that Len is small, the peak P is large, and existing keys lie deeper than
+// a tree of the present size would allow. Then every remaining key is touched
+// again through Add and Replace calls that find it present, interleaved with
+// lookups and a few fresh insertions next to the remnant; the bound (from the
+// peak) is checked after every call.
+func c02remnant(h *c02hist) {
+	r := h.r
+	h.t = stree.New(h.beta, func(a, b Elem) int { h.ncmp++; return cmpElem(a, b) })
+	n := []int{255, 511, 1023, 2047, 200 + r.IntN(1500)}[r.IntN(5)]
+	build := r.IntN(3)
+	h.log.add("New(beta=%d); build %d keys (mode %d)", h.beta, n, build)
+	switch build {
+	case 0: // bulk New: perfectly balanced
+		keys := make([]Elem, n)
+		for i := range keys {
+			keys[i] = Elem{Key: i + 1, Tag: i}
+			h.keys[i+1] = true
+		}
+		h.t = stree.New(h.beta, func(a, b Elem) int { h.ncmp++; return cmpElem(a, b) }, keys...)
+		h.P = n
+		h.log.add("(bulk New of 1..%d)", n)
+	case 1:
+		for _, p := range r.Perm(n) {
+			h.add(p + 1)
+		}
+	default:
+		for i := 1; i <= n; i++ {
+			h.add(i)
+		}
+	}
+	if h.failed {
+		return
+	}
+	// walk down from the root to a node at a chosen depth, remembering the spine
+	cur := h.t.Root()
+	var spine []int
+	wantDepth := 2 + r.IntN(9)
+	for d := 0; d < wantDepth && cur.Valid(); d++ {
+		nxt := cur.Clone()
+		if r.IntN(2) == 0 {
+			nxt.Left()
+		} else {
+			nxt.Right()
+		}
+		if !nxt.Valid() {
+			nxt = cur.Clone().Left()
+			if !nxt.Valid() {
+				nxt = cur.Clone().Right()
+			}
+			if !nxt.Valid() {
+				break
+			}
+		}
+		spine = append(spine, cur.Key().Key)
+		cur = nxt
+	}
+	keep := map[int]bool{}
+	for _, k := range spine {
+		keep[k] = true
+	}
+	cur.Inorder(func(e Elem) bool { keep[e.Key] = true; return true })
+	// removal order
+	var drop []int
+	for _, k := range h.sortedKeys() {
+		if !keep[k] {
+			drop = append(drop, k)
+		}
+	}
+	switch r.IntN(3) {
+	case 0: // deepest first
+		depth := map[int]int{}
+		for _, k := range drop {
+			depth[k] = h.depthOf(k)
+		}
+		sort.SliceStable(drop, func(i, j int) bool { return depth[drop[i]] > depth[drop[j]] })
+	case 1:
+		r.Shuffle(len(drop), func(a, b int) { drop[a], drop[b] = drop[b], drop[a] })
+	}
+	h.log.add("(prune to a subtree of %d keys below a spine of %d ancestors)", len(keep)-len(spine), len(spine))
+	for _, k := range drop {
+		h.remove(k)
+		if h.failed {
+			return
+		}
+	}
+	h.c.Add("deep_remnant_histories", 1)
+	h.c.Max("max:remnant_depth_minus_log2_len_x1000", int64(1000*(float64(h.fullDepth())-math.Log2(float64(max(1, h.t.Len()))))))
+	// touch what is left
+	ks := append([]int(nil), h.sortedKeys()...)
+	for round := 0; round < 3 && !h.failed; round++ {
+		r.Shuffle(len(ks), func(a, b int) { ks[a], ks[b] = ks[b], ks[a] })
+		for i, k := range ks {
+			if h.failed {
+				return
+			}
+			h.useReplace = (i+round)%2 == 0
+			h.add(k) // present: returns false
+			h.c.Add("touches_of_present_keys", 1)
+			if i%7 == 6 {
+				h.useReplace = false
+				if !h.keys[k+1] {
+					h.add(k + 1) // a fresh key right next to a remaining one
+				}
+			}
+		}
 	}
 }
